@@ -1,7 +1,7 @@
 CONSTANTS
   MaxForks = 0
-  Zones = {"UTC0", "JST-9", "IST-5:30", "NST3:30"}
-  Kinds = {"plain", "default", "local", "utc"}
+  Zones = {"UTC0", "JST-9"}
+  Kinds = {"ns", "us", "ms", "msdot"}
   MaxOps = 5
 SPECIFICATION Spec
 INVARIANTS UtcFixed LocalCurrent PidCurrent ClockRead Emit
